@@ -385,3 +385,6 @@ package chord
 
 //@ func errorDef(str string, retryable bool) (r error)
 //@   inline
+
+// hash functions handed to the stores produce ring identifiers (chord.Hash does: proved under C11)
+//@ axiom ids48hash: forall f int, s string :: dyncall(f, s, "uint64") < 1<<48
